@@ -231,3 +231,84 @@ KEEP += [
      None, ['C19'], 'blocked J6 written in the five-entry form that the reader pads back with 0'),
 ]
 MUTANTS.append(('M78', PY, "                self.sign_corrections.iter().map(|x| x.to_string())", "                self.sign_corrections.iter().take(5).map(|x| x.to_string())", 'C19', 'R19.1', 'the sixth sign correction is never written'))
+
+# ---- fourth batch: URDF, forward kinematics, collisions, constraints
+KEEP += [
+    ('K49', U, "        if let Some(existing) = map.get(&joint.name) {\n            // Check if the existing entry is different from the new one\n            if existing != &joint {\n                return Err(Box::new(std::io::Error::new(std::io::ErrorKind::InvalidData,\n                                                        format!(\"Duplicate joint name with different data found: {}\", joint.name))));\n            }\n        } else {\n            map.insert(joint.name.clone(), joint);\n        }",
+     "        match map.get(&joint.name) {\n            Some(existing) if existing != &joint => {\n                return Err(Box::new(std::io::Error::new(std::io::ErrorKind::InvalidData,\n                                                        format!(\"Duplicate joint name with different data found: {}\", joint.name))));\n            }\n            Some(_) => {}\n            None => {\n                map.insert(joint.name.clone(), joint);\n            }\n        }",
+     ['C20'], 'duplicate test as a guarded match'),
+    ('K50', U, "    let lower_attr = element.attribute(\"lower\")\n        .ok_or_else(|| ParameterError::MissingField(\"lower limit not found\".into()))?\n        .value();\n    let lower_limit = parse_angle(lower_attr)?;\n\n    let upper_attr = element.attribute(\"upper\")\n        .ok_or_else(|| ParameterError::MissingField(\"upper limit not found\".into()))?\n        .value();\n    let upper_limit = parse_angle(upper_attr)?;\n",
+     "    let upper_attr = element.attribute(\"upper\")\n        .ok_or_else(|| ParameterError::MissingField(\"upper limit not found\".into()))?\n        .value();\n    let lower_attr = element.attribute(\"lower\")\n        .ok_or_else(|| ParameterError::MissingField(\"lower limit not found\".into()))?\n        .value();\n    let upper_limit = parse_angle(upper_attr)?;\n    let lower_limit = parse_angle(lower_attr)?;\n",
+     ['C20'], 'limits read in the other order'),
+    ('K51', U, "    if let Some(caps) = re.captures(attr_value) {\n        let degrees_str = caps.get(1)\n            .ok_or(ParameterError::WrongAngle(format!(\"Bad representation: {}\",\n                                                      attr_value).to_string()))?.as_str();\n        let degrees: f64 = degrees_str.parse()\n            .map_err(|_| ParameterError::WrongAngle(attr_value.to_string()))?;\n        Ok(degrees.to_radians())\n    } else {\n        // Try to parse the input as a plain number in that case it is in radians\n        let radians: f64 = attr_value.parse()\n            .map_err(|_| ParameterError::WrongAngle(attr_value.to_string()))?;\n        Ok(radians)\n    }",
+     "    let caps = match re.captures(attr_value) {\n        Some(caps) => caps,\n        None => {\n            let radians: f64 = attr_value.parse()\n                .map_err(|_| ParameterError::WrongAngle(attr_value.to_string()))?;\n            return Ok(radians);\n        }\n    };\n    let degrees_str = caps.get(1)\n        .ok_or(ParameterError::WrongAngle(format!(\"Bad representation: {}\",\n                                                  attr_value).to_string()))?.as_str();\n    let degrees: f64 = degrees_str.parse()\n        .map_err(|_| ParameterError::WrongAngle(attr_value.to_string()))?;\n    Ok(degrees.to_radians())",
+     ['C20'], 'plain-number path as an early return'),
+    ('K52', K, "        let translation = Vector3::new(cx0, cy0, cz0) + p.c4 * r_oe * *self.unit_z;", "        let approach = r_oe * *self.unit_z;\n        let translation = Vector3::new(cx0, cy0, cz0) + approach * p.c4;", ['C03'], 'approach vector held in a local, scalar on the right'),
+    ('K53', K, "        let (s1, c1) = q1.sin_cos();\n        let (s2, c2) = q2.sin_cos();", "        let (s1, c1) = (q1.sin(), q1.cos());\n        let (s2, c2) = (f64::sin(q2), f64::cos(q2));", ['C03'], 'sin_cos split into sin and cos'),
+    ('K54', K, "        let pose2 = pose1 * Isometry3::from_parts(\n            Translation3::new(p.a1, p.b, 0.0),\n            UnitQuaternion::from_axis_angle(&nalgebra::Vector3::y_axis(), q2),\n        );",
+     "        let shoulder = Isometry3::from_parts(\n            Translation3::new(p.a1, p.b, 0.0),\n            UnitQuaternion::from_axis_angle(&nalgebra::Vector3::y_axis(), q2),\n        );\n        let pose2 = pose1 * shoulder;",
+     ['C03'], 'link transform held in a local'),
+    ('K55', CO, "        if collides {\n            Some((self.i.min(self.j), self.i.max(self.j)))\n        } else {\n            None\n        }",
+     "        if !collides {\n            return None;\n        }\n        Some((self.i.min(self.j), self.i.max(self.j)))",
+     ['C10'], 'pair result with early return'),
+    ('K56', CO, "        !self\n            .detect_collisions_with_skips(&joint_poses_f32, &safety, &override_mode, &empty_set)\n            .is_empty()",
+     "        let hits = self.detect_collisions_with_skips(&joint_poses_f32, &safety, &override_mode, &empty_set);\n        hits.len() > 0",
+     ['C10', 'C11'], 'verdict as len() > 0'),
+    ('K57', CO, "        if mode == CheckMode::NoCheck {\n            Vec::new()\n        } else if mode == CheckMode::FirstCollisionOnly {",
+     "        if mode == CheckMode::NoCheck {\n            return Vec::new();\n        }\n        if mode == CheckMode::FirstCollisionOnly {",
+     ['C10'], 'mode dispatch with early return'),
+    ('K58', C, "            if a == b {\n                tolerances[j_idx] = INFINITY; // No constraint, not checked\n            } else if a < b {\n                // Values do not wrap arround\n                centers[j_idx] = (a + b) / 2.0;\n                tolerances[j_idx] = (b - a) / 2.0;\n            } else {",
+     "            if a == b {\n                tolerances[j_idx] = INFINITY; // No constraint, not checked\n            } else if a < b {\n                // Values do not wrap arround\n                centers[j_idx] = 0.5 * (a + b);\n                tolerances[j_idx] = 0.5 * (b - a);\n            } else {",
+     ['C07', 'C18'], 'halving as multiplication'),
+    ('K59', C, "            } else if a < b {\n                // Values do not wrap arround\n                centers[j_idx] = (a + b) / 2.0;\n                tolerances[j_idx] = (b - a) / 2.0;\n            } else {", "            } else {",
+     ['C07', 'C18'], 'non-wrapping branch merged into the general one (the loop does not run for a < b)'),
+    ('K60', C, "        let (centers, tolerances) = Self::compute_centers(from, to);\n\n        Constraints {\n            from,\n            to,\n            centers,\n            tolerances,\n            sorting_weight,\n        }",
+     "        Self::new(from, to, sorting_weight)", ['C07'], 'from_degrees delegates to new'),
+    ('K61', C, "        let mut difference = (angle1 - angle2).abs();\n        difference = difference % TWO_PI;\n        if difference > PI {\n            difference = TWO_PI - difference;\n        }\n        difference <= tolerance",
+     "        let raw = (angle1 - angle2).abs() % TWO_PI;\n        let difference = if raw > PI { TWO_PI - raw } else { raw };\n        difference <= tolerance",
+     ['C07', 'C08', 'C18'], 'arc distance with immutable locals'),
+]
+
+# ---- fifth batch: offsets search, continuation, singularity helpers, constraint glue
+KEEP += [
+    ('K62', CO, "                if self\n                    .detect_collisions_with_skips(\n                        &joint_poses_f32,\n                        &self.safety,\n                        &Some(CheckMode::FirstCollisionOnly),\n                        &skip_indices,\n                    )\n                    .is_empty()\n                {",
+     "                let hits = self.detect_collisions_with_skips(\n                    &joint_poses_f32,\n                    &self.safety,\n                    &Some(CheckMode::FirstCollisionOnly),\n                    &skip_indices,\n                );\n                if hits.len() == 0 {",
+     ['C14'], 'empty report tested as len() == 0'),
+    ('K63', CO, "                    .is_empty()\n                {\n                    return Some(new_joints); // Return non-colliding configuration\n                } else {\n                    return None;\n                }",
+     "                    .is_empty()\n                    == false\n                {\n                    return None;\n                }\n                Some(new_joints)",
+     ['C14'], 'colliding candidate rejected by early return'),
+    ('K64', K, "            if solutions.is_empty() {\n                // Unshifted version that comes first is always included into results\n                solutions.extend(&ik);\n            }",
+     "            if solutions.len() == 0 {\n                solutions.extend(&ik);\n            }", ['C04', 'C05', 'C01'], 'emptiness as len() == 0'),
+    ('K65', K, "    joint1.iter()\n        .zip(joint2.iter())\n        .map(|(a, b)| (a - b).abs())\n        .sum()", "    let mut sum = 0.0;\n    for i in 0..6 {\n        sum += (joint1[i] - joint2[i]).abs();\n    }\n    sum", ['C04'], 'joint distance as a loop'),
+    ('K66', K, "            solutions.sort_by(|a, b| {\n                let distance_a = calculate_distance(a, previous);\n                let distance_b = calculate_distance(b, previous);\n                distance_a.partial_cmp(&distance_b).unwrap_or(std::cmp::Ordering::Equal)\n            });",
+     "            solutions.sort_by(|a, b| {\n                calculate_distance(a, previous)\n                    .partial_cmp(&calculate_distance(b, previous))\n                    .unwrap_or(std::cmp::Ordering::Equal)\n            });", ['C04'], 'comparator temporaries inlined'),
+    ('K67', K, "    let two_pi = 2.0 * PI;\n\n    fn adjust(", "    let two_pi = std::f64::consts::TAU;\n\n    fn adjust(", ['C04', 'C01'], 'period as TAU'),
+    ('K68', K, "    while diff > PI {\n        diff = (2.0 * PI) - diff;\n    }\n    diff < SINGULARITY_ANGLE_THR", "    if diff > PI {\n        diff = (2.0 * PI) - diff;\n    }\n    diff < SINGULARITY_ANGLE_THR", ['C05'], 'single fold suffices after the modulo'),
+    ('K69', K, "    let normalized_angle = joint_value.rem_euclid(2.0 * PI);\n    // Check if the normalized angle is close to 0 or PI\n    normalized_angle < threshold ||\n        (2.0 * PI - normalized_angle) < threshold ||\n        (PI - normalized_angle).abs() < threshold",
+     "    let two_pi = 2.0 * PI;\n    let n = joint_value.rem_euclid(two_pi);\n    if n < threshold {\n        return true;\n    }\n    if two_pi - n < threshold {\n        return true;\n    }\n    (PI - n).abs() < threshold", ['C05'], 'singularity test as early returns'),
+    ('K70', K, "                        let j_d = angle / 2.0;", "                        let j_d = 0.5 * angle;", ['C05'], 'halving as multiplication'),
+    ('K71', K, "        if self.parameters.dof == 5 {\n            // For 5 DOF robot, we can only do 5 DOF approximate inverse. J6 is set to 0.\n            self.inverse_5dof(pose, 0.0)\n        } else {\n            self.filter_constraints_compliant(self.inverse_intern(&pose))\n        }",
+     "        if self.parameters.dof == 5 {\n            return self.inverse_5dof(pose, 0.0);\n        }\n        let all = self.inverse_intern(&pose);\n        self.filter_constraints_compliant(all)", ['C01', 'C02', 'C06', 'C08'], 'inverse with early return'),
+    ('K72', K, "        match &self.constraints {\n            Some(constraints) => constraints.filter(&solutions),\n            None => solutions\n        }", "        if let Some(constraints) = &self.constraints {\n            constraints.filter(&solutions)\n        } else {\n            solutions\n        }", ['C08', 'C01'], 'match as if-let'),
+    ('K73', K, "        match &self.constraints {\n            Some(constraints) => constraints.compliant(&solution),\n            None => true\n        }", "        self.constraints.as_ref().map_or(true, |c| c.compliant(&solution))", ['C08', 'C05'], 'match as map_or'),
+]
+
+MUTANTS.append(('M79', K, "                        while angle > PI {\n                            angle -= 2.0 * PI;\n                        }\n                        while angle < -PI {\n                            angle += 2.0 * PI;\n                        }\n                        let j_d", "                        if angle > PI {\n                            angle -= 2.0 * PI;\n                        }\n                        if angle < -PI {\n                            angle += 2.0 * PI;\n                        }\n                        let j_d", 'C05', 'R05.5', 'sum difference reduced by at most one turn (wound-up wrist jumps by pi)'))
+KEEP += [
+    ('K74', K, "                        let mut angle = s_n - s;\n                        while angle > PI {\n                            angle -= 2.0 * PI;\n                        }\n                        while angle < -PI {\n                            angle += 2.0 * PI;\n                        }\n                        let j_d", "                        let angle = (s_n - s + PI).rem_euclid(2.0 * PI) - PI;\n                        let j_d", ['C05'], 'sum difference reduced in closed form'),
+    ('K75', K, "                        while angle > PI {\n                            angle -= 2.0 * PI;\n                        }\n                        while angle < -PI {\n                            angle += 2.0 * PI;\n                        }\n                        let j_d", "                        loop {\n                            if angle > PI {\n                                angle -= 2.0 * PI;\n                                continue;\n                            }\n                            if angle < -PI {\n                                angle += 2.0 * PI;\n                                continue;\n                            }\n                            break;\n                        }\n                        let j_d", ['C05'], 'two reduction loops merged into one'),
+]
+
+KEEP += [
+    ('K76', None, [(CO, "                let skip_indices: HashSet<usize> = (0..joint_index).collect();", "                let skip_indices: HashSet<usize> = (0..joint_index).chain([J_BASE]).collect();", False),
+                   (CO, "        if skip.len() >= 6 {\n            panic!(\n                \"At most 5 joints can be skipped, but {} were passed: {:?}\",\n                skip.len(),", "        let skipped_joints = skip.iter().filter(|&&k| k <= J6).count();\n        if skipped_joints >= 6 {\n            panic!(\n                \"At most 5 joints can be skipped, but {} were passed: {:?}\",\n                skipped_joints,", False),
+                   (CO, "        let joint_env_tasks = (6 - skip.len()) * self.collision_environment.len();", "        let joint_env_tasks = (6 - skipped_joints) * self.collision_environment.len();", False)],
+     None, ['C14', 'C10'], 'the never-moving base named in the skip set (check_required already treats it as unmoved)'),
+    ('K77', CO, "            for j in ((i + 1)..6).rev() {\n                // If both joints did not move, we do not need to check\n                if j - i > 1 && self.check_required", "            for j in ((i + 2).max(skip.len())..6).rev() {\n                if self.check_required", ['C14', 'C10'], 'link pairs below the first moved joint not enumerated (skip is a prefix 0..k)'),
+]
+
+MUTANTS.append(('M80', RT, "                    tree_b.connect(q_new, extend_length, &mut is_free)", "                    tree_b.connect(q_new, extend_length, &mut |_q: &[N]| true)", 'C13', 'R13.6', 'the connecting tree grows without the collision predicate'))
+KEEP += [
+    ('K78', RT, "            match self.extend(q_target, extend_length, is_free) {", "            let mut is_free_or_target = |q: &[N]| q == q_target || is_free(q);\n            match self.extend(q_target, extend_length, &mut is_free_or_target) {", ['C13'], 'connect admits its target unchecked; every connect target is a vertex of the other tree'),
+    ('K79', RT, "        let extend_status = tree_a.extend(&q_rand, extend_length, &mut is_free);", "        let extend_status = tree_a.connect(&q_rand, extend_length, &mut is_free);", ['C13'], 'greedy growth towards the sample (every node still checked)'),
+]
